@@ -32,6 +32,7 @@ def run(ctx):
         'generic F: the same MIR body serves f32 and f64; casts between them are the identity under R',
         'an end-to-end ulp bound of the interval is outside the claim (the statement says "commensurate with conditioning")',
         'K: feeding loops with <= 3 symbolic observations; append/ci_mean replaced by recorders (moves only)',
+        'translator validation: 12 pinned inputs of the repository (100-element data set, README data, 1..10; (500,421), (20,10), (30,20), (10000,89), (15,8)) through the native crate and through the MIR-extracted terms evaluated by z3 at F(11,53) with statrs\' value for the oracle: results must be bit-identical',
     ]
     core.run_kani_set(ctx, ['c01_', 'c06_interval_bounds', 'c06_t_and_z', 'c06_critical_value'], bound='<= 3 observations, recorder stubs', harness_timeout=600)
     m = E.MEngine(ctx)
@@ -39,6 +40,9 @@ def run(ctx):
         return
     try:
         obligations(ctx, m)
+        # translator validation: the MIR interpreter reproduces the natively compiled crate bit for bit on the repo's pinned inputs
+        from mirsmt import validate
+        validate.run(ctx, m)
     except mir.Stuck as e:
         m.stuck('C01:M', 'unsupported construct: %s' % e)
     m.finish()
